@@ -1,7 +1,7 @@
 /* WARNING: This file is #included into two places, since the definition
    of malloc() differs.  Be careful. */
 
-static int cond_get_exp (int);
+static int64_t cond_get_exp (int);
 static void handle_cond (int);
 
 #ifndef LEXER
@@ -116,7 +116,7 @@ static void handle_elif () {
           *--outptr = '\0';
           add_input (expr);
 #endif
-          cond = cond_get_exp (0);
+          cond = (cond_get_exp (0) != 0);
 #ifdef LEXER
           if (*outptr++)
             {
@@ -221,9 +221,11 @@ static char optab2[] =
 
 #define optab1 (_optab-' ')
 
-static int cond_get_exp (int priority) {
+static int64_t cond_get_exp (int priority) {
   int c;
-  int value, value2, x;
+  /* LPC integers are 64 bits wide: #if 0 > 2147483648 must be false */
+  int64_t value, value2;
+  int x;
 
 #ifdef LEXER
   do
